@@ -156,3 +156,68 @@ Qed.
    and the snapshot diff instead) *)
 Example C20_conservative : check flow_code_order_composite = false.
 Proof. reflexivity. Qed.
+
+(* --- round 11 --- *)
+(* HISTORIES and ORDER.  One long-lived process serves request after request; each flow starts from the heap its
+   predecessors left, with any register file.  (Model/AliasHist.v, Proofs/AliasHist_proofs.v) *)
+From Verif Require Import Model.AliasHist Proofs.AliasHist_proofs.
+
+(* after ANY history of accepted flows, every object that existed when the process started serving - schema tables,
+   constants, endpoint / handler objects with all their attributes, client records - is what it was *)
+Theorem C20_history_no_static_write : forall ps h0 h',
+  all_checked ps -> run_hist ps h0 h' -> static_part h0 h'.
+Proof. exact hist_no_static_write. Qed.
+Print Assumptions C20_history_no_static_write.
+
+(* ORDER INDEPENDENCE: two histories of accepted flows - other clients, other order, other length - leave the same
+   static objects for the next request *)
+Theorem C20_history_order_independent : forall ps1 ps2 h0 h1 h2,
+  all_checked ps1 -> all_checked ps2 -> run_hist ps1 h0 h1 -> run_hist ps2 h0 h2 ->
+  forall l, h0 l <> None -> h1 l = h2 l.
+Proof. exact hist_order_independent. Qed.
+Print Assumptions C20_history_order_independent.
+
+(* ... instantiated with the flows regenerated from the current source: any sequence of paths of the translated
+   functions (token handlers included), in any order *)
+Theorem C20_generated_history_no_static_write : forall ps h0 h',
+  from_flows generated_flows ps -> run_hist ps h0 h' -> static_part h0 h'.
+Proof. exact (generated_hist_no_static_write generated_flows C20_generated_flows_checked). Qed.
+Print Assumptions C20_generated_history_no_static_write.
+
+Theorem C20_generated_order_independent : forall ps1 ps2 h0 h1 h2,
+  from_flows generated_flows ps1 -> from_flows generated_flows ps2 -> run_hist ps1 h0 h1 -> run_hist ps2 h0 h2 ->
+  forall l, h0 l <> None -> h1 l = h2 l.
+Proof. exact (generated_order_independent generated_flows C20_generated_flows_checked). Qed.
+Print Assumptions C20_generated_order_independent.
+
+(* the long-lived token handlers are among the translated functions: minting and reading a token with the JWT, the
+   default and the ID Token handler, and the dispatcher; every path loads the handler object as a static root, so
+   `self.<attr> = ...` in one of them is a write through a root and C20_generated_flows_checked stops compiling *)
+Definition gen_handler_functions : list string :=
+  [ "JWTToken.__call__"; "JWTToken.get_payload"; "JWTToken.info"; "JWTToken.is_expired"; "JWTToken.load_custom_claims";
+    "DefaultToken.__call__"; "DefaultToken.split_token"; "DefaultToken.info"; "DefaultToken.is_expired";
+    "IDToken.__call__"; "IDToken.sign_encrypt"; "IDToken.payload"; "IDToken.info" ]%string.
+Theorem C20_generated_token_handlers_covered :
+  (forallb (fun_covered generated_flows GR_token_handler_obj) gen_handler_functions
+   && forallb (fun_covered generated_flows GR_token_handler) ["TokenHandler.get_handler"; "TokenHandler.info"]%string)%bool = true.
+Proof. vm_compute; reflexivity. Qed.
+Print Assumptions C20_generated_token_handlers_covered.
+
+(* non-vacuity: a flow that keeps a helper object it made on a static root (the shape of a per-handler memo) is
+   rejected whatever precedes the store, also when the stored value is immutable *)
+Theorem C20_root_store_rejected : forall pre r x k y post,
+  check (pre ++ ILoadRoot x r :: ISet x k y :: post) = false.
+Proof. exact check_rejects_root_store. Qed.
+Print Assumptions C20_root_store_rejected.
+Theorem C20_root_store_atom_rejected : forall pre r x k a post,
+  check (pre ++ ILoadRoot x r :: ISetAtom x k a :: post) = false.
+Proof. exact check_rejects_root_store_atom. Qed.
+Print Assumptions C20_root_store_atom_rejected.
+
+(* a history has executions (the theorems are not about the empty relation) *)
+Example C20_history_runs : exists h', run_hist [flow_find_token] h_schema h' /\ h' 2 = h_schema 2.
+Proof.
+  destruct C20_find_token_runs as [s1 [R1 E1]]. exists (fst (fst s1)).
+  split; [eapply rh_cons; [exact R1 | apply rh_nil] | exact E1].
+Qed.
+(* --- end round 11 --- *)
